@@ -122,5 +122,391 @@ theorem toLocal_doTf_doTf_unit (T A B : Tf R) (h : Q4.normSq T.rot = 1) :
   obtain ⟨⟨_, _, _⟩, ⟨_, _, _, _⟩⟩ := t
   simp only [V3.smul, Q4.smul]; congr 1 <;> congr 1 <;> ring
 
+theorem quatMul_assoc (a b c : Q4 R) : quatMul (quatMul a b) c = quatMul a (quatMul b c) := by
+  simp only [quatMul]; congr 1 <;> ring
+
+/-! ## `forward` then `world_to_joint` for one link -/
+
+/-- `placeJoint` = link transform after the anchor-corrected joint transform -/
+theorem placeJoint_eq (lk : LinkP R) (j : Tf R) :
+    Kin.placeJoint lk j
+      = Tf.doTf lk.tf ⟨j.pos + lk.joint.pos - rotate lk.joint.pos j.rot, j.rot⟩ := by
+  simp only [Kin.placeJoint, Tf.doTf, V3.zero, V3.add_def, V3.sub_def, zero_add]
+
+/-- the anchor correction is exactly undone by composing with the joint offset:
+`(j.pos + a − R(j.rot) a, j.rot) ∘ (a, r) = (j.pos + a, j.rot·r)` -/
+theorem anchor_doTf_joint (j joint : Tf R) :
+    Tf.doTf ⟨j.pos + joint.pos - rotate joint.pos j.rot, j.rot⟩ joint
+      = ⟨j.pos + joint.pos, quatMul j.rot joint.rot⟩ := by
+  simp only [Tf.doTf, V3.add_def, V3.sub_def]; congr 2 <;> ring
+
+theorem toLocal_anchor (p a : V3 R) (r jr : Q4 R) :
+    Tf.toLocal ⟨p + a, quatMul r jr⟩ ⟨a, jr⟩
+      = ⟨invRotate p jr, quatMul (quatInv jr) (quatMul r jr)⟩ := by
+  simp only [Tf.toLocal, invRotate, V3.add_def, V3.sub_def]; congr 3 <;> ring
+
+/-- `a_c` of a link placed by `forward` under the parent transform `xp` -/
+theorem a_c_eq (lk : LinkP R) (xp j : Tf R) :
+    Tf.doTf (Tf.doTf xp (Kin.placeJoint lk j)) lk.joint
+      = Tf.doTf (Tf.doTf xp lk.tf) ⟨j.pos + lk.joint.pos, quatMul j.rot lk.joint.rot⟩ := by
+  rw [placeJoint_eq, ← doTf_assoc xp, doTf_assoc (Tf.doTf xp lk.tf), anchor_doTf_joint]
+
+/-- joint transform recovered by `world_to_joint` from a link placed by `forward` -/
+theorem w2jLink_placed_j (lk : LinkP R) (xp j : Tf R) (xdp xdi : Motion R)
+    (hxp : Q4.normSq xp.rot = 1) (hlk : Q4.normSq lk.tf.rot = 1) :
+    (w2jLink lk xp xdp (Tf.doTf xp (Kin.placeJoint lk j)) xdi).1
+      = ⟨invRotate j.pos lk.joint.rot,
+         quatMul (quatInv lk.joint.rot) (quatMul j.rot lk.joint.rot)⟩ := by
+  have hT : Q4.normSq (Tf.doTf xp lk.tf).rot = 1 := by
+    simp only [Tf.doTf]; rw [normSq_quatMul, hxp, hlk]; ring
+  simp only [w2jLink]
+  rw [a_c_eq]
+  have := toLocal_doTf_doTf_unit (Tf.doTf xp lk.tf)
+    ⟨j.pos + lk.joint.pos, quatMul j.rot lk.joint.rot⟩ lk.joint hT
+  rw [this]
+  exact toLocal_anchor j.pos lk.joint.pos j.rot lk.joint.rot
+
+/-- rotation part of the placed link and of the parent anchor -/
+theorem placed_rot (lk : LinkP R) (xp j : Tf R) :
+    (Tf.doTf xp (Kin.placeJoint lk j)).rot = quatMul (quatMul xp.rot lk.tf.rot) j.rot := by
+  simp only [Kin.placeJoint, Tf.doTf]; rw [quatMul_assoc]
+
+theorem invRotate_rotate_anchor (w : V3 R) (T jrot jr : Q4 R) (hT : Q4.normSq T = 1) :
+    invRotate (rotate w (quatMul T jrot)) (quatMul T jr) = invRotate (rotate w jrot) jr := by
+  rw [rotate_quatMul, invRotate_quatMul, invRotate_rotate_unit _ _ hT]
+
+/-- a root link is a child of the identity frame at rest -/
+theorem world_none_eq (jj : Tf R × Motion R) :
+    Kin.world none jj = Kin.world (some (Tf.id, Motion.zero)) jj := by
+  obtain ⟨⟨⟨px, py, pz⟩, ⟨rw, rx, ry, rz⟩⟩, ⟨⟨ax, ay, az⟩, ⟨vx, vy, vz⟩⟩⟩ := jj
+  simp only [Kin.world, Tf.doTf, Tf.id, Motion.zero, V3.zero, Q4.one, rotate, quatMul, V3.dot,
+    V3.cross, Q4.vec, V3.add_def, V3.sub_def]
+  congr 1
+  · congr 1 <;> congr 1 <;> ring
+  · congr 1 <;> congr 1 <;> ring
+
+theorem doMotion_one_ang (p : V3 R) (m : Motion R) :
+    (Tf.doMotion ⟨p, Q4.one⟩ m).ang = m.ang := by
+  simp only [Tf.doMotion, Q4.one, quatInv, neg_zero]; exact rotate_one _
+
+theorem doMotion_one_vel (p : V3 R) (m : Motion R) :
+    (Tf.doMotion ⟨p, Q4.one⟩ m).vel = m.vel - V3.cross p m.ang := by
+  simp only [Tf.doMotion, Q4.one, quatInv, neg_zero]; exact rotate_one _
+
+theorem v3_add_sub_cancel (a r : V3 R) : a + r - a = r := by
+  cases a; cases r; simp only [V3.add_def, V3.sub_def]; congr 1 <;> ring
+
+theorem v3_rest_cancel (v u w p : V3 R) :
+    v + V3.cross ⟨0, 0, 0⟩ u + w - (v - V3.cross p ⟨0, 0, 0⟩) = w := by
+  cases v; cases u; cases w; cases p
+  simp only [V3.cross, V3.add_def, V3.sub_def]; congr 1 <;> ring
+
+/-- angular part of `jd` recovered by `world_to_joint` from a link placed by `forward` -/
+theorem w2jLink_world_ang (lk : LinkP R) (xp j : Tf R) (xdp jd : Motion R)
+    (hxp : Q4.normSq xp.rot = 1) (hlk : Q4.normSq lk.tf.rot = 1) :
+    (w2jLink lk xp xdp (Kin.world (some (xp, xdp)) (Kin.placeJoint lk j, jd)).1
+        (Kin.world (some (xp, xdp)) (Kin.placeJoint lk j, jd)).2).2.1.ang
+      = invRotate (rotate jd.ang j.rot) lk.joint.rot := by
+  have hT : Q4.normSq (quatMul xp.rot lk.tf.rot) = 1 := by rw [normSq_quatMul, hxp, hlk]; ring
+  simp only [w2jLink, Kin.world, doMotion_one_ang]
+  rw [placed_rot]
+  rw [v3_add_sub_cancel]
+  simp only [Tf.doTf]
+  exact invRotate_rotate_anchor jd.ang _ j.rot lk.joint.rot hT
+
+/-- linear part of `jd` recovered by `world_to_joint` when the parent does not rotate
+(`jdv` is the joint-frame linear velocity *before* `forward` moves it to the parent frame) -/
+theorem w2jLink_world_vel (lk : LinkP R) (xp j : Tf R) (xdp : Motion R) (jda jdv : V3 R)
+    (hxp : Q4.normSq xp.rot = 1) (hlk : Q4.normSq lk.tf.rot = 1) (hrest : xdp.ang = ⟨0, 0, 0⟩) :
+    (w2jLink lk xp xdp
+        (Kin.world (some (xp, xdp)) (Kin.placeJoint lk j, ⟨jda, rotate jdv lk.tf.rot⟩)).1
+        (Kin.world (some (xp, xdp)) (Kin.placeJoint lk j, ⟨jda, rotate jdv lk.tf.rot⟩)).2).2.1.vel
+      = invRotate jdv lk.joint.rot := by
+  have hT : Q4.normSq (quatMul xp.rot lk.tf.rot) = 1 := by rw [normSq_quatMul, hxp, hlk]; ring
+  simp only [w2jLink, Kin.world, doMotion_one_vel, hrest]
+  rw [v3_rest_cancel, ← rotate_quatMul]
+  simp only [Tf.doTf]
+  rw [invRotate_quatMul, invRotate_rotate_unit _ _ hT]
+
 end CommRing
+
+/-! ## ℝ: normalisation -/
+section Real
+
+theorem sq_le_of_abs_le {x e : ℝ} (h : |x| ≤ e) : x * x ≤ e * e := by
+  have h0 := abs_nonneg x
+  have := mul_le_mul h h h0 (le_trans h0 h)
+  rwa [abs_mul_abs_self] at this
+
+/-- a vector whose squared length exceeds `3e-16` is not `allclose` to zero -/
+theorem allClose0_3_false (x y z : ℝ) (h : 1e-15 < x * x + y * y + z * z) :
+    allClose0 [x, y, z] = false := by
+  rw [Bool.eq_false_iff]; intro hc
+  simp only [allClose0, List.all_cons, List.all_nil, Bool.and_true, Bool.and_eq_true,
+    decide_eq_true_eq, absv_eq_abs] at hc
+  obtain ⟨h1, h2, h3⟩ := hc
+  have := sq_le_of_abs_le h1; have := sq_le_of_abs_le h2; have := sq_le_of_abs_le h3
+  norm_num at *; linarith
+
+theorem allClose0_4_false (w x y z : ℝ) (h : 1e-15 < w * w + x * x + y * y + z * z) :
+    allClose0 [w, x, y, z] = false := by
+  rw [Bool.eq_false_iff]; intro hc
+  simp only [allClose0, List.all_cons, List.all_nil, Bool.and_true, Bool.and_eq_true,
+    decide_eq_true_eq, absv_eq_abs] at hc
+  obtain ⟨h0, h1, h2, h3⟩ := hc
+  have := sq_le_of_abs_le h0
+  have := sq_le_of_abs_le h1; have := sq_le_of_abs_le h2; have := sq_le_of_abs_le h3
+  norm_num at *; linarith
+
+/-- `normalize` of a vector that is not `allclose` to zero divides by its Euclidean norm -/
+theorem normalize3_eq (v : V3 ℝ) (h : 1e-15 < V3.dot v v) :
+    normalize3 v = ⟨v.x / Real.sqrt (V3.dot v v), v.y / Real.sqrt (V3.dot v v),
+                    v.z / Real.sqrt (V3.dot v v)⟩ := by
+  have hz := allClose0_3_false v.x v.y v.z (by simpa [V3.dot] using h)
+  have hpos : 0 < Real.sqrt (V3.dot v v) := Real.sqrt_pos.mpr (lt_trans (by norm_num) h)
+  have hs : safeNorm3 v = Real.sqrt (V3.dot v v) := by
+    simp only [safeNorm3, safeNormL, hz, Bool.false_eq_true, if_false, List.foldl_cons,
+      List.foldl_nil, HasSqrt.sqrt, V3.dot, zero_add]
+  have hne : eqZero (Real.sqrt (V3.dot v v)) = false := by
+    rw [Bool.eq_false_iff, Ne, eqZero_iff]; exact ne_of_gt hpos
+  simp only [normalize3, hs, hne, Bool.false_eq_true, if_false]
+
+theorem normalize3_unit (v : V3 ℝ) (h : V3.dot v v = 1) : normalize3 v = v := by
+  rw [normalize3_eq v (by rw [h]; norm_num), h, Real.sqrt_one]
+  cases v; simp
+
+theorem normalize4_eq (q : Q4 ℝ) (h : 1e-15 < Q4.normSq q) :
+    normalize4 q = ⟨q.w / Real.sqrt (Q4.normSq q), q.x / Real.sqrt (Q4.normSq q),
+                    q.y / Real.sqrt (Q4.normSq q), q.z / Real.sqrt (Q4.normSq q)⟩ := by
+  have hz := allClose0_4_false q.w q.x q.y q.z (by simpa [Q4.normSq] using h)
+  have hpos : 0 < Real.sqrt (Q4.normSq q) := Real.sqrt_pos.mpr (lt_trans (by norm_num) h)
+  have hs : safeNorm4 q = Real.sqrt (Q4.normSq q) := by
+    simp only [safeNorm4, safeNormL, hz, Bool.false_eq_true, if_false, List.foldl_cons,
+      List.foldl_nil, HasSqrt.sqrt, Q4.normSq, zero_add]
+  have hne : eqZero (Real.sqrt (Q4.normSq q)) = false := by
+    rw [Bool.eq_false_iff, Ne, eqZero_iff]; exact ne_of_gt hpos
+  simp only [normalize4, hs, hne, Bool.false_eq_true, if_false]
+
+theorem normalize4_unit (q : Q4 ℝ) (h : Q4.normSq q = 1) : normalize4 q = q := by
+  rw [normalize4_eq q (by rw [h]; norm_num), h, Real.sqrt_one]
+  cases q; simp
+
+/-- the normalised quaternion is a unit quaternion -/
+theorem normalize4_normSq (q : Q4 ℝ) (h : 1e-15 < Q4.normSq q) :
+    Q4.normSq (normalize4 q) = 1 := by
+  have hp : 0 < Q4.normSq q := lt_trans (by norm_num) h
+  rw [normalize4_eq q h]
+  have hs := Real.mul_self_sqrt (le_of_lt hp)
+  have hne : Real.sqrt (Q4.normSq q) ≠ 0 := ne_of_gt (Real.sqrt_pos.mpr hp)
+  generalize Real.sqrt (Q4.normSq q) = n at hs hne
+  simp only [Q4.normSq] at hs ⊢
+  have : q.w / n * (q.w / n) + q.x / n * (q.x / n) + q.y / n * (q.y / n) + q.z / n * (q.z / n)
+      = (q.w * q.w + q.x * q.x + q.y * q.y + q.z * q.z) / (n * n) := by
+    field_simp
+  rw [this, ← hs]; exact div_self (mul_ne_zero hne hne)
+
+/-! ## ℝ: `orthogonals` -/
+
+theorem v3Any_of_ne (a : V3 ℝ) (h : V3.dot a a ≠ 0) : v3Any a = true := by
+  by_contra hc
+  simp only [v3Any, Bool.or_eq_true, Bool.not_eq_true', not_or, Bool.not_eq_false, eqZero_iff] at hc
+  obtain ⟨⟨h1, h2⟩, h3⟩ := hc
+  apply h; simp only [V3.dot, h1, h2, h3]; ring
+
+theorem v3Any_zero : v3Any (⟨0, 0, 0⟩ : V3 ℝ) = false := by
+  simp [v3Any, eqZero_iff]
+
+/-- Gram–Schmidt step of `orthogonals`: for unit `a`, `e` not too parallel, the normalised
+`e − a (a·e)` is a unit vector orthogonal to `a` -/
+theorem orth_core (a e : V3 ℝ) (ha : V3.dot a a = 1) (he : V3.dot e e = 1)
+    (hd : V3.dot a e * V3.dot a e ≤ 3 / 4) :
+    let b := normalize3 (⟨e.x - a.x * V3.dot a e, e.y - a.y * V3.dot a e, e.z - a.z * V3.dot a e⟩ : V3 ℝ)
+    V3.dot b b = 1 ∧ V3.dot a b = 0 := by
+  intro b
+  set d := V3.dot a e with hdd
+  set b0 : V3 ℝ := ⟨e.x - a.x * d, e.y - a.y * d, e.z - a.z * d⟩ with hb0
+  have hm : V3.dot b0 b0 = 1 - d * d := by
+    simp only [V3.dot] at ha he hdd ⊢
+    simp only [hb0]
+    linear_combination (d * d) * ha + he + 2 * d * hdd
+  have hab0 : V3.dot a b0 = 0 := by
+    simp only [V3.dot] at ha he hdd ⊢
+    simp only [hb0]
+    linear_combination (-d) * ha - hdd
+  have hlow : (1e-15 : ℝ) < V3.dot b0 b0 := by rw [hm]; norm_num; linarith
+  have hp : 0 < V3.dot b0 b0 := lt_trans (by norm_num) hlow
+  have hb : b = ⟨b0.x / Real.sqrt (V3.dot b0 b0), b0.y / Real.sqrt (V3.dot b0 b0),
+                 b0.z / Real.sqrt (V3.dot b0 b0)⟩ := normalize3_eq b0 hlow
+  have hs := Real.mul_self_sqrt (le_of_lt hp)
+  have hne : Real.sqrt (V3.dot b0 b0) ≠ 0 := ne_of_gt (Real.sqrt_pos.mpr hp)
+  generalize Real.sqrt (V3.dot b0 b0) = n at hs hne hb
+  rw [hb]
+  constructor
+  · have : V3.dot (⟨b0.x / n, b0.y / n, b0.z / n⟩ : V3 ℝ) ⟨b0.x / n, b0.y / n, b0.z / n⟩
+        = V3.dot b0 b0 / (n * n) := by
+      simp only [V3.dot]; field_simp
+    rw [this, ← hs]; exact div_self (mul_ne_zero hne hne)
+  · have : V3.dot a (⟨b0.x / n, b0.y / n, b0.z / n⟩ : V3 ℝ) = V3.dot a b0 / n := by
+      simp only [V3.dot]; field_simp
+    rw [this, hab0, zero_div]
+
+/-- `orthogonals a` of a unit vector: a unit vector `b ⟂ a` and `a × b` -/
+theorem orthogonals_spec (a : V3 ℝ) (ha : V3.dot a a = 1) :
+    V3.dot (orthogonals a).1 (orthogonals a).1 = 1 ∧ V3.dot a (orthogonals a).1 = 0
+      ∧ (orthogonals a).2 = V3.cross a (orthogonals a).1 := by
+  have hany : v3Any a = true := v3Any_of_ne a (by rw [ha]; norm_num)
+  refine ⟨?_, ?_, rfl⟩
+  all_goals
+    simp only [orthogonals, hany, if_true]
+    by_cases hy : (-(0.5 : ℝ) < a.y) ∧ (a.y < 0.5)
+    · have hb : (decide (-(0.5 : ℝ) < a.y) && decide (a.y < 0.5)) = true := by simp [hy.1, hy.2]
+      simp only [hb, if_true]
+      have := orth_core a ⟨0, 1, 0⟩ ha (by simp [V3.dot]) (by
+        simp only [V3.dot]; norm_num at hy ⊢; nlinarith [hy.1, hy.2])
+      first | exact this.1 | exact this.2
+    · have hb : (decide (-(0.5 : ℝ) < a.y) && decide (a.y < 0.5)) = false := by
+        simp only [Bool.and_eq_false_iff, decide_eq_false_iff_not]; tauto
+      simp only [hb, Bool.false_eq_true, if_false]
+      have := orth_core a ⟨0, 0, 1⟩ ha (by simp [V3.dot]) (by
+        simp only [V3.dot] at ha ⊢; norm_num at hy ⊢
+        rcases le_or_gt a.y (-(1/2)) with h | h
+        · nlinarith [mul_self_nonneg a.x]
+        · have := hy h; nlinarith [mul_self_nonneg a.x])
+      first | exact this.1 | exact this.2
+
+/-! ## ℝ: rotation about an axis -/
+
+theorem quatRotAxis_normSq (a : V3 ℝ) (θ : ℝ) (ha : V3.dot a a = 1) :
+    Q4.normSq (quatRotAxis a θ) = 1 := by
+  simp only [V3.dot] at ha
+  simp only [quatRotAxis, Q4.normSq, HasTrig.sin, HasTrig.cos]
+  have := Real.sin_sq_add_cos_sq (θ / (1 + 1))
+  linear_combination (Real.sin (θ / (1 + 1)) ^ 2) * ha + this
+
+/-- Rodrigues' formula for `quat_rot_axis` (unit axis) -/
+theorem rotate_quatRotAxis (a v : V3 ℝ) (θ : ℝ) (ha : V3.dot a a = 1) :
+    rotate v (quatRotAxis a θ)
+      = ⟨Real.cos θ * v.x + Real.sin θ * (V3.cross a v).x + (1 - Real.cos θ) * V3.dot a v * a.x,
+         Real.cos θ * v.y + Real.sin θ * (V3.cross a v).y + (1 - Real.cos θ) * V3.dot a v * a.y,
+         Real.cos θ * v.z + Real.sin θ * (V3.cross a v).z + (1 - Real.cos θ) * V3.dot a v * a.z⟩ := by
+  have h1 : (1 + 1 : ℝ) = 2 := by norm_num
+  have hc : Real.cos θ = Real.cos (θ / 2) ^ 2 - Real.sin (θ / 2) ^ 2 := by
+    have := Real.cos_sq' (θ / 2)
+    have h2 := Real.cos_two_mul (θ / 2)
+    rw [show 2 * (θ / 2) = θ by ring] at h2
+    rw [h2, this]; ring
+  have hs : Real.sin θ = 2 * Real.sin (θ / 2) * Real.cos (θ / 2) := by
+    have h2 := Real.sin_two_mul (θ / 2)
+    rw [show 2 * (θ / 2) = θ by ring] at h2
+    exact h2
+  have hcs := Real.sin_sq_add_cos_sq (θ / 2)
+  simp only [quatRotAxis, HasTrig.sin, HasTrig.cos, h1]
+  rw [hc, hs]
+  generalize Real.cos (θ / 2) = c at *
+  generalize Real.sin (θ / 2) = s at *
+  simp only [V3.dot] at ha
+  simp only [rotate, V3.dot, V3.cross, Q4.vec]
+  congr 1
+  · linear_combination ((a.x * v.x + a.y * v.y + a.z * v.z) * a.x) * hcs - (s * s * v.x) * ha
+  · linear_combination ((a.x * v.x + a.y * v.y + a.z * v.z) * a.y) * hcs - (s * s * v.y) * ha
+  · linear_combination ((a.x * v.x + a.y * v.y + a.z * v.z) * a.z) * hcs - (s * s * v.z) * ha
+
+/-- the axis is fixed -/
+theorem rotate_axis (a : V3 ℝ) (θ : ℝ) (ha : V3.dot a a = 1) : rotate a (quatRotAxis a θ) = a := by
+  rw [rotate_quatRotAxis a a θ ha, ha]
+  simp only [V3.cross]
+  cases a; congr 1 <;> ring
+
+theorem invRotate_axis (a : V3 ℝ) (θ : ℝ) (ha : V3.dot a a = 1) :
+    invRotate a (quatRotAxis a θ) = a := by
+  have := invRotate_rotate_unit a (quatRotAxis a θ) (quatRotAxis_normSq a θ ha)
+  rwa [rotate_axis a θ ha] at this
+
+/-- a vector orthogonal to the axis turns in the plane spanned by itself and `a × b` -/
+theorem rotate_perp (a b : V3 ℝ) (θ : ℝ) (ha : V3.dot a a = 1) (hab : V3.dot a b = 0) :
+    rotate b (quatRotAxis a θ)
+      = ⟨Real.cos θ * b.x + Real.sin θ * (V3.cross a b).x,
+         Real.cos θ * b.y + Real.sin θ * (V3.cross a b).y,
+         Real.cos θ * b.z + Real.sin θ * (V3.cross a b).z⟩ := by
+  rw [rotate_quatRotAxis a b θ ha, hab]; congr 1 <;> ring
+
+/-- `a × b` turns towards `−b` -/
+theorem rotate_perp_cross (a b : V3 ℝ) (θ : ℝ) (ha : V3.dot a a = 1) (hab : V3.dot a b = 0) :
+    rotate (V3.cross a b) (quatRotAxis a θ)
+      = ⟨Real.cos θ * (V3.cross a b).x - Real.sin θ * b.x,
+         Real.cos θ * (V3.cross a b).y - Real.sin θ * b.y,
+         Real.cos θ * (V3.cross a b).z - Real.sin θ * b.z⟩ := by
+  rw [rotate_quatRotAxis a (V3.cross a b) θ ha, dot_cross_self_left]
+  simp only [V3.dot] at ha hab
+  simp only [V3.cross]
+  congr 1
+  · linear_combination (Real.sin θ * a.x) * hab - (Real.sin θ * b.x) * ha
+  · linear_combination (Real.sin θ * a.y) * hab - (Real.sin θ * b.y) * ha
+  · linear_combination (Real.sin θ * a.z) * hab - (Real.sin θ * b.z) * ha
+
+/-! ## ℝ: `atan2`, and what `axis_angle_ang` computes for a single hinge -/
+
+theorem atan2_sin_cos (q : ℝ) (h1 : -Real.pi < q) (h2 : q ≤ Real.pi) :
+    HasTrig.atan2 (Real.sin q) (Real.cos q) = q := by
+  have := Complex.arg_cos_add_sin_mul_I (θ := q) ⟨h1, h2⟩
+  simp only [HasTrig.atan2]
+  convert this using 2
+  apply Complex.ext <;> simp [Complex.cos_ofReal_re, Complex.sin_ofReal_re, Complex.cos_ofReal_im, Complex.sin_ofReal_im]
+
+/-- line of nodes of a frame `(a, b, a × b)` turned by `q` about `a`: `cos q · b + sin q · a×b` -/
+theorem hinge_lon (a b : V3 ℝ) (q : ℝ) (ha : V3.dot a a = 1) (hb : V3.dot b b = 1)
+    (hab : V3.dot a b = 0) :
+    normalize3 (V3.cross (rotate (V3.cross a b) (quatRotAxis a q)) a)
+      = ⟨Real.cos q * b.x + Real.sin q * (V3.cross a b).x,
+         Real.cos q * b.y + Real.sin q * (V3.cross a b).y,
+         Real.cos q * b.z + Real.sin q * (V3.cross a b).z⟩ := by
+  have hraw : V3.cross (rotate (V3.cross a b) (quatRotAxis a q)) a
+      = ⟨Real.cos q * b.x + Real.sin q * (V3.cross a b).x,
+         Real.cos q * b.y + Real.sin q * (V3.cross a b).y,
+         Real.cos q * b.z + Real.sin q * (V3.cross a b).z⟩ := by
+    rw [rotate_perp_cross a b q ha hab]
+    simp only [V3.dot] at ha hab
+    simp only [V3.cross]
+    congr 1
+    · linear_combination (Real.cos q * b.x) * ha - (Real.cos q * a.x) * hab
+    · linear_combination (Real.cos q * b.y) * ha - (Real.cos q * a.y) * hab
+    · linear_combination (Real.cos q * b.z) * ha - (Real.cos q * a.z) * hab
+  rw [hraw]
+  apply normalize3_unit
+  have hcs := Real.sin_sq_add_cos_sq q
+  simp only [V3.dot] at ha hb hab
+  simp only [V3.dot, V3.cross]
+  linear_combination hcs + (Real.cos q ^ 2) * hb
+    + (Real.sin q ^ 2) * ((b.x * b.x + b.y * b.y + b.z * b.z) * ha + hb
+        - (a.x * b.x + a.y * b.y + a.z * b.z) * hab)
+
+/-- `psi` of `axis_angle_ang` for a frame `(a, b, a × b)` turned by `q ∈ (−π, π]` about its first
+axis is `q` itself, and the first child axis is `a` -/
+theorem hinge_psi (a b p : V3 ℝ) (q par : ℝ) (ha : V3.dot a a = 1) (hb : V3.dot b b = 1)
+    (hab : V3.dot a b = 0) (h1 : -Real.pi < q) (h2 : q ≤ Real.pi) :
+    (axisAngleAng ⟨p, quatRotAxis a q⟩ ⟨a, b, V3.cross a b⟩ par).2.psi = q
+      ∧ (axisAngleAng ⟨p, quatRotAxis a q⟩ ⟨a, b, V3.cross a b⟩ par).1.r0 = a := by
+  constructor
+  · simp only [axisAngleAng]
+    rw [hinge_lon a b q ha hb hab]
+    simp only [signedAngle]
+    have hy : V3.dot (V3.cross b ⟨Real.cos q * b.x + Real.sin q * (V3.cross a b).x,
+        Real.cos q * b.y + Real.sin q * (V3.cross a b).y,
+        Real.cos q * b.z + Real.sin q * (V3.cross a b).z⟩) a = Real.sin q := by
+      simp only [V3.dot] at ha hb hab
+      simp only [V3.dot, V3.cross]
+      linear_combination (Real.sin q * (b.x * b.x + b.y * b.y + b.z * b.z)) * ha + Real.sin q * hb
+        - (Real.sin q * (a.x * b.x + a.y * b.y + a.z * b.z)) * hab
+    have hx : V3.dot b ⟨Real.cos q * b.x + Real.sin q * (V3.cross a b).x,
+        Real.cos q * b.y + Real.sin q * (V3.cross a b).y,
+        Real.cos q * b.z + Real.sin q * (V3.cross a b).z⟩ = Real.cos q := by
+      simp only [V3.dot] at hb
+      simp only [V3.dot, V3.cross]
+      linear_combination Real.cos q * hb
+    rw [hy, hx]
+    exact atan2_sin_cos q h1 h2
+  · simp only [axisAngleAng]
+    exact rotate_axis a q ha
+
+end Real
 end Brax.Inv
